@@ -86,7 +86,8 @@ Write == /\ svPhase = (IF NoCleanup THEN "imported" ELSE "cleaned")
 PlaceStale == /\ svPhase = "idle" /\ Len(svHist) < MaxLen
               /\ svFs' = svFs \cup {[name |-> IF svPlugin \in SetOwners THEN "stale" ELSE "main", content |-> "stale"]}
               /\ svFs' # svFs
-              /\ svHist' = Append(svHist, [a |-> "Stale"])
+              \* how: other bytes under an owned name / the very text the plugin wrote, with Windows line endings
+              /\ \E h \in {"bytes", "crlf"} : svHist' = Append(svHist, [a |-> "Stale", how |-> h])
               /\ UNCHANGED <<svPlugin, svPhase, svModel, svValid, svVi>>
 \* "regardless of ... process": the whole history may also happen inside ONE interpreter (generator.__main__.main called
 \* again and again), where module-level state of the generator survives from run to run.  It is a choice made before
